@@ -54,7 +54,10 @@ GetClauses(e) ==
               Same(e.res, ps[1].xs[1])>> >>
 
 MultiConcreteClauses(e) ==
-  << <<"MultiplicityRefusedOnConcrete", e.outcome = "raised:ValueError">> >>
+  << <<"MultiplicityRefusedOnConcrete", e.outcome = "raised:ValueError">>,
+     \* ... by the method, the constructor argument and assignment to the property alike, and the path the request was
+     \* made on is afterwards exactly the path it was (same projection, same answers)
+     <<"RefusedRequestLeavesThePathAsItWas", e.refusal_clean>> >>
 
 \* a get_data call recorded from the repository's own tests: the path is known by its projection only
 GetProjClauses(e) ==
